@@ -30,16 +30,26 @@ import (
 
 const pcVersion = "0.14.0"
 
-var idStrings = []string{"0x1d0a", "0x1d0b", feeder.PreConfirmedBlankIdentifier}
+// idString: block_identifier is per block round, so x / y are distinct strings for every slot (a sequencer only sees
+// the identifier); the blank placeholder is the feeder's constant.
+func idString(s uint64, i int) string {
+	if i == 2 {
+		return feeder.PreConfirmedBlankIdentifier
+	}
+	return fmt.Sprintf("0x1d%04x", s*4+uint64(i))
+}
+
 var idNames = []string{"x", "y", "blank"}
 
 func idIndex(s string) int {
-	for i, x := range idStrings {
-		if x == s {
-			return i
-		}
+	if s == feeder.PreConfirmedBlankIdentifier {
+		return 2
 	}
-	return -1
+	var v uint64
+	if _, err := fmt.Sscanf(s, "0x1d%04x", &v); err != nil {
+		return -1
+	}
+	return int(v % 4)
 }
 
 func txHash(s uint64, i, k int) felt.Felt {
@@ -226,7 +236,7 @@ func fullJSON(s uint64, i, c int) []byte {
 			`"status":"PRE_CONFIRMED","timestamp":%d,"starknet_version":"%s","sequencer_address":"0x5e9",`+
 			`"l1_gas_price":{"price_in_wei":"0x6a5","price_in_fri":"0x6a6"},"l2_gas_price":{"price_in_wei":"0x2a1","price_in_fri":"0x2a2"},`+
 			`"l1_da_mode":"BLOB","l1_data_gas_price":{"price_in_wei":"0xda1","price_in_fri":"0xda2"}}`,
-			s, idStrings[i], txs, rcs, sds, 5000+s*10+uint64(i), pcVersion))
+			s, idString(s, i), txs, rcs, sds, 5000+s*10+uint64(i), pcVersion))
 	})
 }
 
@@ -235,7 +245,7 @@ func deltaJSON(s uint64, i, from, to int) []byte {
 	return memo(fmt.Sprintf("D/%d/%d/%d/%d", s, i, from, to), func() []byte {
 		txs, rcs, sds := txList(s, i, from, to)
 		return []byte(fmt.Sprintf(`{"changed":true,"block_number":%d,"block_identifier":"%s","transactions":[%s],"transaction_receipts":[%s],"transaction_state_diffs":[%s]}`,
-			s, idStrings[i], txs, rcs, sds))
+			s, idString(s, i), txs, rcs, sds))
 	})
 }
 
@@ -257,4 +267,10 @@ func decode(js []byte) (starknet.PreConfirmedUpdate, uint64) {
 func classesFor(s uint64, i int) map[felt.Felt]core.ClassDefinition {
 	c, h, _ := classOf(s, i)
 	return map[felt.Felt]core.ClassDefinition{h: c}
+}
+
+// extraClass is a second class for a slot (a NoChange re-poll that brings one more definition).
+func extraClass(s uint64) (core.ClassDefinition, felt.Felt) {
+	c, h, _, _ := chain.Sierra(200 + int(s))
+	return c, h
 }
